@@ -2,10 +2,12 @@ import PrimaiteModel.Model.Route
 import PrimaiteModel.Model.Forward
 import PrimaiteModel.Props.C08Addressee
 import PrimaiteModel.Props.C08Termination
+import PrimaiteModel.Model.RouteMetric
 open Primaite Primaite.Route Primaite.Forward
 
 structure D where
   tbl : Table := {}
+  tblM : List RouteM := []
   net : St := {}
 
 def fuelMax : Nat := 200000
@@ -66,6 +68,23 @@ def step (d : D) : List String → D × String
   | ["rt-find", dst] =>
     match parseIp dst with
     | some dst => (d, showResult (findBestRoute d.tbl dst))
+    | none => (d, "bad-op")
+  -- route table with float metrics (inf / -inf / nan / 2 x finite value)
+  | ["rtm-new"] => ({ d with tblM := [] }, "ok")
+  | ["rtm-add", a, m, nh, me] =>
+    let metric : Option Metric := match me with
+      | "inf" => some .inf | "-inf" => some .ninf | "nan" => some .nan
+      | x => x.toInt?.map Metric.fin
+    match parseIp a, parseIp m, parseIp nh, metric with
+    | some a, some m, some nh, some me => ({ d with tblM := d.tblM ++ [{ addr := a, mask := m, nextHop := nh, metric := me }] }, "ok")
+    | _, _, _, _ => (d, "bad-op")
+  | ["rtm-find", dst] =>
+    match parseIp dst with
+    | some dst =>
+      (d, match findBestM d.tblM dst with
+          | none => "raised"
+          | some none => "none"
+          | some (some (i, r)) => s!"route {i} {showIp r.nextHop}")
     | none => (d, "bad-op")
   -- network core
   | ["net-new"] => ({ d with net := {} }, "ok")
